@@ -514,6 +514,14 @@ def meanDecisionExact (p : Nat) (emin : Int) (t : Option Rat) (xi : Rat) (w mask
           | some r, none => isBin p emin r
           | none, _ => false
 
+/-- the spread of the neighbours is exactly 0 also in floating point: they are all equal to one value `c`
+whose multiples `j·c`, `j ≤ N` (the window's size), are numbers of the format — every sum of copies of `c` in
+any order, their mean, the deviations from it (all 0), the variance and its root are computed exactly, and a
+finite threshold times 0 is 0: the pixel is an outlier exactly when its computed deviation is not 0.  (Also the
+window mean of a pixel equal to `c` is `c` exactly.)  `c13.filter` reports it per pixel as `flat0`. -/
+def flatSpreadExact (p : Nat) (emin : Int) (w masked : List Rat) : Bool :=
+  allEq masked && sumsExact p emin w.length (masked.headD 0)
+
 /-! ## float level (2): the mean and median filters in binary64, in NumPy's order of evaluation
 
 Lean's `Float` is IEEE binary64 with a software model the kernel can evaluate, so statements about
